@@ -496,6 +496,7 @@ void rt_run_tasks(int ntasks, TaskFn fn, void* arg, ChooseFn choose, void* cctx,
     last = task; last_guard = tk->ctx.last_guard;
     if (tk->done.load(std::memory_order_acquire)) { alive &= ~(1ull << task); pthread_join(tk->th, nullptr); }
   }
+  { int task = -1; uint64_t q = 0; choose(cctx, 0, last, last_guard, &task, &q); }   // final monitoring turn (no task left)
   if (res) res->tasks_preempted_in_lib = __builtin_popcountll(lib_pre_mask);
   if (log_n) *log_n = n < log_cap ? n : log_cap;
   g_tasks = nullptr; g_ntasks = 0;
@@ -525,7 +526,7 @@ extern "C" int __wrap___cxa_guard_acquire(void* g) {
   sim::TaskCtx* t = sim::sim_cur();
   ++t->guard_depth;
   int r = __cxa_guard_acquire(g);
-  if (!r) --t->guard_depth;
+  if (!r) --t->guard_depth; else ++t->guard_brackets;
   return r;
 }
 extern "C" void __wrap___cxa_guard_release(void* g) { __cxa_guard_release(g); sim::TaskCtx* t = sim::sim_cur(); if (t->guard_depth > 0) --t->guard_depth; }
